@@ -259,8 +259,8 @@ def run_case(ctx, h, tmp):
                         for g in _refs(o):
                             v = o.eGet(g)
                             vs = list(v) if g.many else ([v] if v is not None else [])
-                            snap[(id(o), g.name)] = [('proxy', x._proxy_path, target_id(x))
-                                                     if hasattr(x, '_proxy_path') else ('obj', None, id(x)) for x in vs]
+                            snap[(id(o), g.name)] = [('proxy', x._proxy_path, target_id(x), id(x))
+                                                     if hasattr(x, '_proxy_path') else ('obj', None, id(x), id(x)) for x in vs]
                     return snap
 
                 def same_value(a, b):
@@ -292,9 +292,13 @@ def run_case(ctx, h, tmp):
                     # ... and nothing else changed: every other feature value of every surviving object is what it was,
                     # minus the deleted objects (with recursive=False that is the target alone)
                     after_values = values()
+                    # a proxy nobody had followed that named a deleted object by its position is a path, not a reference
+                    # to the instance (the object could not know it): whatever that path names afterwards — a sibling
+                    # that moved up, if something followed it meanwhile — is not judged, on either side
+                    stale = {e[3] for was in before_values.values() for e in was if e[0] == 'proxy' and e[2] in gone}
                     for key, was in before_values.items():
                         want_now = [x for x in was if x[2] not in gone]
-                        now = [x for x in after_values.get(key, []) if x[2] not in gone]
+                        now = [x for x in after_values.get(key, []) if x[2] not in gone and x[3] not in stale]
                         if len(now) != len(want_now) or not all(same_value(a, b) for a, b in zip(want_now, now)):
                             o_ = next(o for o in everything if id(o) == key[0])
                             still.append(f'{o_.eClass.name}.{key[1]} of a surviving object changed beyond losing the deleted object'
